@@ -719,6 +719,11 @@ impl NodeId {
     /// ```
     /// [`append`]: struct.NodeId.html#method.append
     pub fn append_value<T>(self, value: T, arena: &mut Arena<T>) -> NodeId {
+        assert!(
+            !arena[self].is_removed(),
+            "Preconditions not met: invalid argument: {}",
+            NodeError::Removed
+        );
         let new_child = arena.new_node(value);
         self.append_new_node_unchecked(new_child, arena);
 
